@@ -35,6 +35,10 @@ func (w *World) newErr(src string) *SimErr {
 // expect records that e must (eventually) be reported by the table: now if
 // sink is nil, or once the detached row `sink` is attached.
 func (w *World) expect(e error, sink *mRow) {
+	if e == misuseMarker && (sink == nil || sink.attached) {
+		w.unknownErr++
+		return
+	}
 	if sink != nil && !sink.attached {
 		if se, ok := e.(*SimErr); ok && se.Batch == 0 {
 			se.Batch = sink.handle + 1
@@ -49,9 +53,19 @@ func (w *World) movePending(h *mRow) {
 	if len(h.pending) > 0 {
 		w.probe("pending_errors_moved_on_attach")
 	}
-	w.expErrs = append(w.expErrs, h.pending...)
+	for _, e := range h.pending {
+		if e == misuseMarker {
+			w.unknownErr++
+			continue
+		}
+		w.expErrs = append(w.expErrs, e)
+	}
 	h.pending = nil
 }
+
+// misuseMarker stands, in a detached row's pending list, for an error the
+// library minted itself (its text and identity are not the statement's business).
+var misuseMarker error = &SimErr{ID: -1, Src: "misuse"}
 
 // DoErr executes the error-family steps.
 //
@@ -328,6 +342,9 @@ func (w *World) CheckC11(op string) *Violation {
 			return v("row-pending-count", "detached row#%d reports %d errors, %d were raised on it", h.handle, len(re), len(h.pending))
 		}
 		for i := range re {
+			if _, own := re[i].(*SimErr); h.pending[i] == misuseMarker && !own && re[i] != nil {
+				continue
+			}
 			if re[i] != h.pending[i] {
 				return v("row-pending-order", "detached row#%d Errors()[%d]=%v, want %v", h.handle, i, re[i], h.pending[i])
 			}
